@@ -28,8 +28,12 @@ XG == {I(0), I(1), I(2), I(3), R(1, 2), R(5, 2)}
 \* probe states of the exhaustive mode (a handful; the rate laws themselves are swept by C01)
 ExhX == {[s \in Sp |-> I(s)], [s \in Sp |-> R(2 * s - 1, 2)], [s \in Sp |-> I((s + 1) % 3)]}
 
-Init == /\ \E d \in Pick(Decls) : prog = [decl |-> d, rx |-> << >>]
-        /\ x = [s \in Sp |-> One] /\ pc = "build"
+\* the declared species list is chosen by an action (under -simulate Init is evaluated once per run)
+Init == /\ prog = [decl |-> << >>, rx |-> << >>]
+        /\ x = [s \in Sp |-> One] /\ pc = "declare"
+Declare == /\ pc = "declare"
+           /\ \E d \in Pick(Decls) : prog' = [prog EXCEPT !.decl = d]
+           /\ pc' = "build" /\ x' = x
 
 AddRx == /\ pc = "build" /\ Len(prog.rx) < MaxRx
          /\ \E re \in Pick(SeqsUpTo(MaxSide)), pr \in Pick(SeqsUpTo(MaxSide)),
@@ -59,7 +63,7 @@ Finish == /\ pc = "build"
           /\ \E xx \in (IF Mode = "sim" THEN Pick([Sp -> XG]) ELSE ExhX) : (RateDefined(prog, xx) = TRUE) /\ x' = xx
           /\ pc' = "done" /\ prog' = prog
 
-Next == AddRx \/ AddUnsetRx \/ Finish
+Next == Declare \/ AddRx \/ AddUnsetRx \/ Finish
 Spec == Init /\ [][Next]_vars
 
 Refinement == IndexRefinesName(prog) /\ Cancels(prog)
